@@ -7,7 +7,7 @@ IMPORTS = "lib.Path model.CFS_file model.CFS_tree model.CFS_inst model.C08_run m
 def run(ctx):
     n = {"quick": 160, "thorough": 4000}[ctx.tier]
     ops = {"quick": 50, "thorough": 200}[ctx.tier]
-    nrace = {"quick": 12, "thorough": 300}[ctx.tier]
+    nrace = {"quick": 12, "thorough": 120}[ctx.tier]
 
     def stages(ctx, mult, suffix, off):
         ctx.stage("c13" + suffix, "sdk/go/arvados", "arvados", CFS + ["C13/zz_verif_c13_test.go"], "TestVerifC13$",
@@ -16,7 +16,7 @@ def run(ctx):
         # real goroutines + race detector + real throttle; every worker is one case of the C08 evaluator
         ctx.stage("c13race" + suffix, "sdk/go/arvados", "arvados", CFS + ["C13/zz_verif_c13race_test.go"], "TestVerifC13Race$",
                   nrace * mult, HDR.format(imports="lib.Path model.CFS_file model.CFS_tree model.CFS_inst model.C08_run"),
-                  seed_offset=off, shard=10, race=True, timeout=1500,
+                  seed_offset=off, shard=10, race=True, timeout=3000,
                   env={"VERIF_STAGE": "c13race" + suffix, "VERIF_OPS": str(ops)})
     hdr8 = HDR.format(imports="lib.Path model.CFS_file model.CFS_tree model.CFS_inst model.C08_run")
     expr8 = "first_diff 0 (run Spec (fs_init Spec) (c_ops c)) (c_obs c)"
